@@ -248,6 +248,7 @@ type Case struct {
 	CloseFails []int  `json:"close_fails,omitempty"`
 	Types      []int  `json:"types"`
 	Ops        []Op   `json:"ops"`
+	Clock      int    `json:"clock,omitempty"` // Broker.StopTimeAt before op k (k = Clock-1) and again later: the registry reads no clock
 }
 
 // Identifiers are opaque strings: the names used are look-alikes of one another (case, surrounding white space, a
@@ -587,6 +588,10 @@ func execCase(c Case) (obs []Obs, panicked interface{}) {
 		}
 		for i, op := range c.Ops {
 			atomic.StoreInt32(&step, int32(i))
+			if c.Clock > 0 && (i == (c.Clock-1)%len(c.Ops) || i%5 == 4) {
+				// the other exported method of the Broker: an identity step as far as the registry is concerned
+				b.StopTimeAt([]time.Time{{}, time.Unix(4102444800, 0), time.Now(), time.Unix(1, 1)}[(c.Clock+i)%4])
+			}
 			o := w.apply(op, cf)
 			w.observe(c.Types, &o)
 			res.obs = append(res.obs, o)
@@ -699,6 +704,9 @@ type emitter struct {
 func (e *emitter) emit(c Case) []Obs {
 	e.next++
 	c.ID = e.next
+	if c.Clock == 0 && c.ID%3 == 0 {
+		c.Clock = 1 + c.ID%7
+	}
 	obs, p := execCase(c)
 	if p != nil {
 		e.panics = append(e.panics, fmt.Sprintf("case %d: panic: %v", c.ID, p))
